@@ -20,7 +20,7 @@ def run(ctx):
             raise RuntimeError("vacuity: action %s never taken" % a)
     cfg = tlc.cfg_with("CadenceInject_Gen.cfg", {}, ctx.outdir)
     if ctx.quick():
-        res = tlc.run(MODULE, cfg, ctx.outdir, workers=4, simulate=200, depth=40, seed=ctx.seed)
+        res = tlc.run(MODULE, cfg, ctx.outdir, workers=4, simulate=90, depth=60, seed=ctx.seed)
     else:
         res = tlc.run(MODULE, cfg, ctx.outdir, workers=1)
     ctx.add_tlc(res, "CadenceInject_Gen", "R-generate")
@@ -29,24 +29,24 @@ def run(ctx):
     seen = set()
     for n, rec in enumerate(res.emitted):
         gname = ["dyadic", "bl_hires"][n % 2]
-        key = (gname, tuple(rec["cad"]["starts"]), tuple(rec["cad"]["T"]), rec["cad"]["asc"], rec["sel"], rec["raiseAt"],
+        key = (gname, tuple(rec["cad"]["starts"]), tuple(rec["cad"]["T"]), rec["cad"]["asc"], tuple(rec["sels"]), rec["raiseAt"],
                tuple(sorted((k, str(v)) for k, v in rec["sig"].items())))
         if key in seen:
             continue
         seen.add(key)
         ctx.mark(key)
         ctx.traces += 1
-        ctx.steps += 3 * len(rec["members"]) + 2
+        ctx.steps += 3 * len(rec["cad"]["starts"]) * len(rec["sels"]) + 2
         if len(ctx.samples) < 2:
-            ctx.sample({"leg": "R", "geometry": gname, "cadence": rec["cad"], "signal": rec["sig"], "subset": rec["sel"],
-                        "raiseAt": rec["raiseAt"], "expected_offsets": [f["offset"] for f in rec["frames"]]})
+            ctx.sample({"leg": "R", "geometry": gname, "cadence": rec["cad"], "signal": rec["sig"], "subsets": rec["sels"],
+                        "raiseAt": rec["raiseAt"], "expected_offsets": [f["offsets"] for f in rec["frames"]]})
         try:
             ad.check(rec, gname, ordered=(n % 3 == 0))
             if n % 4 == 0:
                 ad.check_overwrite(rec, gname, 0 if n % 8 else 3)
         except ad.Div as d:
             args = {"geometry": gname, "starts": str(rec["cad"]["starts"]), "T": str(rec["cad"]["T"]), "asc": rec["cad"]["asc"],
-                    "sel": rec["sel"], "raiseAt": rec["raiseAt"], "action": d.field.split("[")[0]}
+                    "sel": "/".join(rec["sels"]), "raiseAt": rec["raiseAt"], "action": d.field.split("[")[0]}
             args.update({k: v for k, v in rec["sig"].items() if k in ("iP", "iT", "iF", "smear", "tForm", "slope", "tsub")})
-            ctx.violation(MODULE, "replay:" + d.field.split("[")[0], args, {"record": {k: rec[k] for k in ("cad", "sig", "sel", "raiseAt", "raised")},
+            ctx.violation(MODULE, "replay:" + d.field.split("[")[0], args, {"record": {k: rec[k] for k in ("cad", "sig", "sels", "raiseAt", "raised")},
                                                                           "field": d.field, "expected": d.expected, "observed": d.observed})
